@@ -174,6 +174,8 @@ func (server *SugarDB) handleCommand(ctx context.Context, message []byte, conn *
 				break
 			}
 		}
+		// Clear the flag on every exit (handler error, cluster paths), not only on local success.
+		defer server.stateMutationInProgress.Store(false)
 	}
 
 	if !server.isInCluster() || !synchronize {
@@ -187,8 +189,6 @@ func (server *SugarDB) handleCommand(ctx context.Context, message []byte, conn *
 			// (for embedded callers there is no TCP client entry to look up).
 			server.aofEngine.LogCommand(ctx.Value("Database").(int), message)
 		}
-
-		server.stateMutationInProgress.Store(false)
 
 		return res, err
 	}
